@@ -79,11 +79,14 @@ def gen_tasks(tier, seed):
         for k in range(nsched):
             gid += 1
             T = 36 if tier == "quick" else 46
-            e = rng.choice([10, 20, 30, 40, 45])
-            s = rng.choice([1, 2, 3, 4, 7, 10, 12])
+            # for the start-interval-1 case the schedule must actually leave 1: e >= 30 reaches 10 at lr ratio <= 0.7
+            e = rng.choice([30, 40, 45]) if k == 0 else rng.choice([10, 20, 30, 40, 45])
+            # the configured start interval 1 is a code path of its own (`steps == 1` shortcut of the refresh helper while the
+            # schedule may already ask for 10, 20, ...): always covered by the first scheduled case of each mode
+            s = 1 if k == 0 else rng.choice([1, 2, 3, 4, 7, 10, 12])
             tab = _sched_table(rng, T)
             tasks.append({
-                "kind": "ds", "mode": mode, "si": rng.choice([1, 1, 2, 3]), "pi": s,
+                "kind": "ds", "mode": mode, "si": 1 if k == 0 else rng.choice([1, 1, 2, 3]), "pi": s,
                 "sched": {"s": s, "e": e, "decay": [str(x) for x in tab]},
                 "starts": [rng.choice([0, 1, 3, 11])], "T": T, "shapes": _shapes(rng), "gseed": seed * 100003 + gid,
                 "graft": rng.choice(GRAFTS), "beta1": 0.9, "mavg": False, "thr": 0.1, "lr": 0.125})
